@@ -285,7 +285,7 @@ def run_dag(scn, *, hooks_factory=None, keep=False, extra_hooks=None, before_run
         out.hooks = hooks
         spy_backend = SpyBackend(inner, trace, hooks or Hooks())
         lab = labtech.Lab(storage=make_storage(scn.get('storage', 'local'), store),
-                          runner_backend=spy_backend, max_workers=W_arg, context=ctx,
+                          runner_backend=spy_backend, max_workers=W_arg, context=(ctx or None),
                           continue_on_failure=scn.get('cof', True))
         out.lab = lab
         displays = scn.get('displays', False)
